@@ -4,5 +4,5 @@ f=$1; n=$2
 tmp=$(mktemp /var/tmp/goalXXXX.v)
 head -n $n $f > $tmp
 echo "Show. Abort All." >> $tmp
-timeout ${3:-120} coqc -Q /verif/coq ESRV -w -all $tmp 2>&1 | grep -v "^WARNING conda" | head -${4:-80}
+timeout ${3:-120} coqc -Q ${COQROOT:-/verif/coq} ESRV -w -all $tmp 2>&1 | grep -v "^WARNING conda" | head -${4:-80}
 rm -f $tmp ${tmp%.v}.vo ${tmp%.v}.glob ${tmp%.v}.vok ${tmp%.v}.vos /var/tmp/.$(basename ${tmp%.v}).aux
